@@ -12,6 +12,7 @@ import (
 	_ "crypto/sha512"
 	"errors"
 	"fmt"
+	"strings"
 
 	kc "github.com/dapr/kit/crypto"
 	"github.com/lestrrat-go/jwx/v2/jwk"
@@ -556,6 +557,10 @@ func runSigTamper(j *judge, g group) {
 			rp := rpm("algorithm", a.name, "valid_digest", digest, "valid_signature", sig, "mutation", detail, "digest", d, "signature", s, "private_jwk", priv, "kit_err", v.err)
 			if j.expectInvalid(a.name, shape, v, rp) {
 				rec.Count("sig.tamper.rejected", 1)
+				if shape == "digest-bit-flip" && m == 0 && strings.HasPrefix(detail, "digest byte 0 ") && rec.WantSample() {
+					rec.Sample(map[string]any{"clause": "tamper", "algorithm": a.name, "valid_digest": hx(digest), "digest": hx(d), "signature": hx(s), "mutation": detail,
+						"kit_valid": v.ok, "kit_error": errStr(v.err)})
+				}
 				return true
 			}
 			return false
